@@ -223,7 +223,7 @@ func (t *Tun) AwaitEnd() {
 		if t.Serve != nil && !t.Serve.Done {
 			return false
 		}
-		if t.Net != nil {
+		if t.Net != nil && t.Cfg.Net == nil {
 			for _, ms := range t.Net.Streams {
 				if !ms.Finished {
 					return false
